@@ -685,7 +685,7 @@ Lemma inv_rsubmitnext s c n e s' : Inv s -> step s (ERSubmitNext c n e) = Some s
 Proof.
   intros I H. unfold step in H. case_hyp H.
   all: assert (Hh : holds c0 = 0) by (eapply rel_not_holding; eauto).
-  all: eapply (inv_hand s c c0 (end_rel r c0)); eauto;
+  all: refine (inv_hand s c c0 _ n _ _ s' _ I Heqo Heqo0 _ _ _ _ _ H);
     [apply end_rel_rel|apply end_rel_holds; exact Hh|eapply end_rel_parked; eauto; exact Logic.I
     |eapply end_rel_lcb; eauto; exact Logic.I|discriminate].
 Qed.
@@ -694,7 +694,8 @@ Lemma inv_rtransfer s c n s' : Inv s -> step s (ERTransfer c n) = Some s' -> Inv
 Proof.
   intros I H. unfold step in H. case_hyp H.
   all: assert (Hh : holds c0 = 0) by (eapply rel_not_holding; eauto).
-  all: eapply (inv_hand s c c0 (upd_rel None c0)); eauto; [side_parked|side_lcb I Heqo|discriminate].
+  all: refine (inv_hand s c c0 _ n _ _ s' _ I Heqo Heqo0 _ _ _ _ _ H);
+    [reflexivity|exact Hh|reflexivity|side_lcb I Heqo|discriminate].
 Qed.
 
 Lemma inv_rbatchsubmit s c e s' : Inv s -> step s (ERBatchSubmit c e) = Some s' -> Inv s'.
@@ -702,10 +703,665 @@ Proof.
   intros I H. unfold step in H. case_hyp H. inv_some H.
   assert (P : pc c0 = PRel) by (eapply rel_pc; eauto).
   pose proof (proj2 (i_lc _ I _ _ Heqo)) as G. unfold stage_ok in G. rewrite Heqo0, Heql in G.
-  match goal with |- Inv (set_co n (upd_exe _ ?y1) (set_co c ?x1 s)) => set (x' := x1) end.
+  match goal with |- Inv (set_co _ (upd_exe _ _) (set_co c ?x1 s)) => set (x' := x1) in * end.
   assert (I1 : Inv (set_co c x' s)).
   { subst x'. local_update I Heqo. rewrite Heql. apply Nat.eqb_refl. }
   eapply inv_local; [exact I1|exact Heqo2|reflexivity|reflexivity| |].
   - pose proof (proj1 (i_lc _ I1 _ _ Heqo2)) as L. exact L.
   - pose proof (proj2 (i_lc _ I1 _ _ Heqo2)) as G1. exact G1.
+Qed.
+
+Theorem inv_step s e s' : Inv s -> step s e = Some s' -> Inv s'.
+Proof.
+  intros I H. destruct e.
+  - eapply inv_start; eauto.
+  - eapply inv_finish; eauto.
+  - eapply inv_hop; eauto.
+  - eapply inv_req; eauto.
+  - eapply inv_trybegin; eauto.
+  - eapply inv_tload; eauto.
+  - eapply inv_tcas; eauto.
+  - eapply inv_lload; eauto.
+  - eapply inv_lcasn; eauto.
+  - eapply inv_push; eauto.
+  - eapply inv_lfail; eauto.
+  - eapply inv_enter; eauto.
+  - eapply inv_leave; eauto.
+  - eapply inv_rself; eauto.
+  - eapply inv_rassert; eauto.
+  - eapply inv_rcheck; eauto.
+  - eapply inv_rload; eauto.
+  - eapply inv_rcas; eauto.
+  - eapply inv_rxchg; eauto.
+  - eapply inv_rsubmitnext; eauto.
+  - eapply inv_rbatchsubmit; eauto.
+  - eapply inv_rtransfer; eauto.
+Qed.
+
+Theorem inv_run tr : forall s s', Inv s -> run s tr = Some s' -> Inv s'.
+Proof.
+  induction tr as [|e tr IH]; simpl; intros s s' I H.
+  - inv_some H. exact I.
+  - destruct (step s e) as [s1|] eqn:E; [|discriminate]. eapply IH; [|exact H]. eapply inv_step; eauto.
+Qed.
+
+Theorem inv_reach f b ws hs tr s : run (init f b ws hs) tr = Some s -> Inv s.
+Proof. apply inv_run. apply inv_init. Qed.
+
+(* ---- the history part of the invariant: arrival order, hand-over order, entries, grants (M5) ------------------- *)
+Definition isq (x : co) : bool := match pc x with PGot true => true | _ => false end.
+Definition pre_grant (x : co) : bool :=
+  match pc x with PTry _ | PTryCas _ | PLock0 _ | PLoop _ _ | PParked | PGot _ => true | _ => false end.
+
+Record InvG (s : st) : Prop := {
+  g_fifo : fifo s = true -> pushed s = handed s ++ receiver s ++ rev (waiters (sender s));
+  g_handed : handed s = entered_q s ++ inflight s;
+  g_inflight : match inflight s with
+               | [] => forall c x, get s c = Some x -> isq x = false
+               | [n] => exists y, get s n = Some y /\ isq y = true
+               | _ => False
+               end;
+  g_nodup : NoDup (grants s);
+  g_le : forall c r, In (c, r) (grants s) -> exists x, get s c = Some x /\ r <= nreq x;
+  g_fresh : forall c x, get s c = Some x -> pre_grant x = true -> ~ In (c, nreq x) (grants s)
+}.
+
+Lemma get_add_try s c b c' : get (add_try c b s) c' = get s c'. Proof. reflexivity. Qed.
+Lemma get_add_pushed s c c' : get (add_pushed c s) c' = get s c'. Proof. reflexivity. Qed.
+Lemma get_add_handed s c c' : get (add_handed c s) c' = get s c'. Proof. reflexivity. Qed.
+Lemma get_add_entered s c q r c' : get (add_entered c q r s) c' = get s c'. Proof. reflexivity. Qed.
+
+Ltac fr := rewrite ?get_add_try, ?get_add_pushed, ?get_add_handed, ?get_add_entered, ?get_set_receiver, ?get_set_sender.
+
+Lemma invg_init f b ws hs : InvG (init f b ws hs).
+Proof.
+  constructor; simpl; auto.
+  - intros c x H. unfold get in H. simpl in H. apply nth_error_In in H. apply in_map_iff in H.
+    destruct H as (h & <- & _). reflexivity.
+  - constructor.
+  - intros c r [].
+Qed.
+
+Lemma invg_add_try s c b : InvG s -> InvG (add_try c b s).
+Proof. intros G. destruct G. constructor; simpl; auto. Qed.
+
+(* rewriting one coroutine: same "handed and not yet inside" status, same request number, not a new request *)
+Lemma invg_local s c x x' : InvG s -> get s c = Some x ->
+  isq x' = isq x -> nreq x' = nreq x -> (pre_grant x' = true -> pre_grant x = true) -> InvG (set_co c x' s).
+Proof.
+  intros G Hx Q N P. constructor; simpl.
+  - apply (g_fifo s G).
+  - apply (g_handed s G).
+  - pose proof (g_inflight s G) as J. destruct (inflight s) as [|n [|? ?]]; auto.
+    + intros c' y. rewrite (get_set_co _ _ _ _ _ Hx). destruct (Nat.eqb c' c).
+      * intros Hy. inv_some Hy. rewrite Q. apply (J c x Hx).
+      * apply J.
+    + destruct J as (y & Hy & Qy). rewrite (get_set_co _ _ _ _ _ Hx). destruct (Nat.eqb n c) eqn:E.
+      * apply Nat.eqb_eq in E. subst n. rewrite Hx in Hy. inv_some Hy. exists x'. split; [reflexivity|congruence].
+      * exists y. split; assumption.
+  - apply (g_nodup s G).
+  - intros c' r Hin. destruct (g_le s G c' r Hin) as (y & Hy & Le). rewrite (get_set_co _ _ _ _ _ Hx).
+    destruct (Nat.eqb c' c) eqn:E.
+    + apply Nat.eqb_eq in E. subst c'. rewrite Hx in Hy. inv_some Hy. exists x'. split; [reflexivity|lia].
+    + exists y. split; assumption.
+  - intros c' y. rewrite (get_set_co _ _ _ _ _ Hx). destruct (Nat.eqb c' c) eqn:E.
+    + apply Nat.eqb_eq in E. subst c'. intros Hy Py. inv_some Hy. rewrite N. apply (g_fresh s G c x Hx (P Py)).
+    + apply (g_fresh s G).
+Qed.
+
+(* a new request *)
+Lemma invg_request s c x x' : InvG s -> get s c = Some x ->
+  isq x' = isq x -> nreq x' = S (nreq x) -> InvG (set_co c x' s).
+Proof.
+  intros G Hx Q N. constructor; simpl.
+  - apply (g_fifo s G).
+  - apply (g_handed s G).
+  - pose proof (g_inflight s G) as J. destruct (inflight s) as [|n [|? ?]]; auto.
+    + intros c' y. rewrite (get_set_co _ _ _ _ _ Hx). destruct (Nat.eqb c' c).
+      * intros Hy. inv_some Hy. rewrite Q. apply (J c x Hx).
+      * apply J.
+    + destruct J as (y & Hy & Qy). rewrite (get_set_co _ _ _ _ _ Hx). destruct (Nat.eqb n c) eqn:E.
+      * apply Nat.eqb_eq in E. subst n. rewrite Hx in Hy. inv_some Hy. exists x'. split; [reflexivity|congruence].
+      * exists y. split; assumption.
+  - apply (g_nodup s G).
+  - intros c' r Hin. destruct (g_le s G c' r Hin) as (y & Hy & Le). rewrite (get_set_co _ _ _ _ _ Hx).
+    destruct (Nat.eqb c' c) eqn:E.
+    + apply Nat.eqb_eq in E. subst c'. rewrite Hx in Hy. inv_some Hy. exists x'. split; [reflexivity|lia].
+    + exists y. split; assumption.
+  - intros c' y. rewrite (get_set_co _ _ _ _ _ Hx). destruct (Nat.eqb c' c) eqn:E.
+    + apply Nat.eqb_eq in E. subst c'. intros Hy Py Hin. inv_some Hy.
+      destruct (g_le s G c _ Hin) as (x0 & Hx0 & Le). rewrite Hx in Hx0. inv_some Hx0. lia.
+    + apply (g_fresh s G).
+Qed.
+
+(* changing the words without changing what the order invariant sees *)
+Lemma invg_words s w r : InvG s ->
+  (fifo s = true -> receiver s ++ rev (waiters (sender s)) = r ++ rev (waiters w)) ->
+  InvG (set_receiver r (set_sender w s)).
+Proof.
+  intros G E. destruct G. constructor; simpl; auto.
+  intros F. rewrite (g_fifo0 F). rewrite (E F). reflexivity.
+Qed.
+
+Lemma invg_sender s w : InvG s -> waiters w = waiters (sender s) -> InvG (set_sender w s).
+Proof.
+  intros G E. destruct G. constructor; simpl; auto. intros F. rewrite E. apply (g_fifo0 F).
+Qed.
+
+Ltac side_q := unfold isq; cbn; rw_fields; try reflexivity.
+Ltac side_pg := unfold pre_grant; cbn; rw_fields; try discriminate; auto.
+Ltac same_waiters s :=
+  cbn [sender set_co]; repeat match goal with E : sender _ = _ |- _ => rewrite E end; try reflexivity;
+  destruct (sender s) as [|[|? ?]]; try reflexivity; try discriminate.
+Ltac glocal G Hx := eapply invg_local; [exact G|exact Hx|side_q|reflexivity|side_pg].
+
+Lemma invg_try_failed s c x k : InvG s -> get s c = Some x -> (pc x = PTry k \/ pc x = PTryCas k) ->
+  InvG (try_failed c x k s).
+Proof.
+  intros G Hx [P|P]; unfold try_failed; destruct k; try apply invg_add_try; glocal G Hx.
+Qed.
+
+Lemma isq_holds x : isq x = true -> holds x = 1.
+Proof. unfold isq, holds. destruct (pc x) as [| | | | | |[]| | |]; try discriminate; reflexivity. Qed.
+
+Lemma rel_isq s c x r : Inv s -> get s c = Some x -> rel x = Some r -> isq x = false.
+Proof.
+  intros I Hx R. destruct (isq x) eqn:Q; [|reflexivity]. apply isq_holds in Q.
+  pose proof (rel_not_holding s c x r I Hx R). lia.
+Qed.
+
+(* while somebody releases, nobody is "handed and not yet inside" *)
+Lemma inflight_nil_when_releasing s c x r : Inv s -> InvG s -> get s c = Some x -> rel x = Some r -> inflight s = [].
+Proof.
+  intros I G Hx R. pose proof (g_inflight s G) as J. destruct (inflight s) as [|n [|? ?]]; [reflexivity| |destruct J].
+  destruct J as (y & Hy & Qy). exfalso. apply isq_holds in Qy.
+  destruct (Nat.eq_dec n c) as [->|N].
+  - rewrite Hx in Hy. inv_some Hy. pose proof (rel_not_holding s c y r I Hx R). lia.
+  - pose proof (others_no_rel s c x n y r I Hx R Hy N) as [_ Hh]. lia.
+Qed.
+
+Lemma invg_hand s c x xc n lc' e s' r : Inv s -> InvG s -> get s c = Some x -> rel x = Some r ->
+  isq xc = false -> nreq xc = nreq x -> (pre_grant xc = true -> pre_grant x = true) ->
+  hand n lc' e (set_co c xc s) = Some s' -> InvG s'.
+Proof.
+  intros I G Hx Rx Qc Nc Pc H.
+  assert (G1 : InvG (set_co c xc s)).
+  { eapply invg_local; eauto. rewrite Qc. symmetry. eapply rel_isq; eauto. }
+  assert (J0 : inflight s = []) by (eapply inflight_nil_when_releasing; eauto).
+  unfold hand in H. cbn [receiver set_co] in H.
+  destruct (receiver s) as [|n' rest] eqn:Rv; [discriminate|].
+  destruct (Nat.eqb n n') eqn:En; [|discriminate]. apply Nat.eqb_eq in En; subst n'.
+  destruct (get (set_co c xc s) n) as [y|] eqn:Hy; [|discriminate].
+  destruct (pc y) eqn:Py; try discriminate. inv_some H.
+  set (s1 := set_co c xc s) in *.
+  match goal with |- InvG (add_handed _ (set_receiver _ (set_co _ ?v _))) => set (y2 := v) end.
+  assert (Qy2 : isq y2 = true) by (subst y2; destruct e; reflexivity).
+  assert (Ny2 : nreq y2 = nreq y) by (subst y2; destruct e; reflexivity).
+  assert (Py2 : pre_grant y = true) by (unfold pre_grant; rewrite Py; reflexivity).
+  constructor; simpl.
+  - intros F. pose proof (g_fifo s G F) as E. rewrite Rv in E. rewrite E. rewrite <- !app_assoc. reflexivity.
+  - change (entered_q (add_handed n (set_receiver rest (set_co n y2 s1)))) with (entered_q s).
+    rewrite (g_handed s G). rewrite <- app_assoc. reflexivity.
+  - change (inflight s1) with (inflight s). rewrite J0. simpl. exists y2. fr.
+    split; [eapply get_set_co_same; eauto|exact Qy2].
+  - apply (g_nodup s G).
+  - intros c' r' Hin. change (grants s1) with (grants s) in Hin. fr.
+    destruct (g_le s1 G1 c' r' Hin) as (z & Hz & Le). rewrite (get_set_co _ _ _ _ _ Hy).
+    destruct (Nat.eqb c' n) eqn:E.
+    + apply Nat.eqb_eq in E. subst c'. rewrite Hy in Hz. inv_some Hz. exists y2. split; [reflexivity|lia].
+    + exists z. split; assumption.
+  - intros c' z. fr. rewrite (get_set_co _ _ _ _ _ Hy). destruct (Nat.eqb c' n) eqn:E.
+    + apply Nat.eqb_eq in E. subst c'. intros Hz _. inv_some Hz. rewrite Ny2. apply (g_fresh s1 G1 n y Hy Py2).
+    + apply (g_fresh s1 G1).
+Qed.
+
+Lemma NoDup_app_intro_one {A} (l : list A) a : NoDup l -> ~ In a l -> NoDup (l ++ [a]).
+Proof.
+  induction l as [|b l IH]; simpl; intros ND N.
+  - constructor; [intros []|constructor].
+  - inversion ND; subst. constructor.
+    + intros Hin. apply in_app_or in Hin. destruct Hin as [Hin|[Hin|[]]]; [contradiction|]. subst. apply N. left; reflexivity.
+    + apply IH; [assumption|]. intros Hin. apply N. right; exact Hin.
+Qed.
+
+Lemma invg_step s e s' : Inv s -> InvG s -> step s e = Some s' -> InvG s'.
+Proof.
+  intros I G H. destruct e; unfold step in H.
+  - (* EStart *) case_hyp H; inv_some H; glocal G Heqo.
+  - (* EFinish *) case_hyp H; inv_some H; glocal G Heqo.
+  - (* EHop *) case_hyp H; inv_some H; glocal G Heqo.
+  - (* EReq *) case_hyp H; inv_some H; (eapply invg_request; [exact G|exact Heqo|side_q|reflexivity]).
+  - (* ETryBegin *) case_hyp H; inv_some H; (eapply invg_request; [exact G|exact Heqo|side_q|reflexivity]).
+  - (* ETLoad *) case_hyp H; inv_some H; try (eapply invg_try_failed; eauto; fail); glocal G Heqo.
+  - (* ETCas *) case_hyp H; inv_some H; try (eapply invg_try_failed; eauto; fail); try apply invg_add_try.
+    all: apply invg_sender; [glocal G Heqo|same_waiters s].
+  - (* ELLoad *) case_hyp H; inv_some H; glocal G Heqo.
+  - (* ELCasN *) case_hyp H; inv_some H.
+    all: apply invg_sender; [glocal G Heqo|same_waiters s].
+  - (* EPush *) case_hyp H; inv_some H.
+    all: match goal with |- InvG (add_pushed _ (set_sender _ (set_co _ ?v _))) => set (x' := v) end.
+    all: assert (G1 : InvG (set_co c x' s)) by (subst x'; glocal G Heqo).
+    all: destruct G1; constructor; simpl; auto.
+    all: intros F; simpl in g_fifo0; rewrite (g_fifo0 F), Heqw; simpl; rewrite <- !app_assoc; reflexivity.
+  - (* ELFail *) case_hyp H; inv_some H; glocal G Heqo.
+  - (* EEnter *) case_hyp H; inv_some H. destruct queued.
+    all: match goal with |- InvG (add_entered _ _ _ (set_co _ ?v _)) => set (x' := v) end.
+    + (* it had queued *)
+      assert (Qx : isq c0 = true) by (unfold isq; rewrite Heqp; reflexivity).
+      assert (J : inflight s = [c]).
+      { pose proof (g_inflight s G) as J. destruct (inflight s) as [|n [|? ?]]; [|f_equal|destruct J].
+        - rewrite (J c c0 Heqo) in Qx. discriminate.
+        - destruct J as (y & Hy & Qy). destruct (Nat.eq_dec n c) as [|N]; [assumption|exfalso].
+          apply isq_holds in Qx. apply isq_holds in Qy.
+          assert (tok y > 0) by (unfold tok; lia).
+          pose proof (tok_unique s n c y c0 I Hy Heqo H (not_eq_sym N)). unfold tok in *. lia. }
+      constructor; simpl.
+      * apply (g_fifo s G).
+      * unfold entered_q. simpl. rewrite filter_app, map_app. simpl. rewrite J. simpl. rewrite Nat.eqb_refl.
+        rewrite app_nil_r. rewrite (g_handed s G), J. reflexivity.
+      * rewrite J. simpl. rewrite Nat.eqb_refl. intros c' y. fr. rewrite (get_set_co _ _ _ _ _ Heqo).
+        destruct (Nat.eqb c' c) eqn:E.
+        -- intros Hy. inv_some Hy. reflexivity.
+        -- intros Hy. apply Nat.eqb_neq in E. destruct (isq y) eqn:Qy; [exfalso|reflexivity].
+           apply isq_holds in Qx. apply isq_holds in Qy.
+           assert (tok c0 > 0) by (unfold tok; lia).
+           pose proof (tok_unique s c c' c0 y I Heqo Hy H E). unfold tok in *. lia.
+      * apply NoDup_app_intro_one; [apply (g_nodup s G)|]. apply (g_fresh s G c c0 Heqo).
+        unfold pre_grant. rewrite Heqp. reflexivity.
+      * intros c' r Hin. fr. apply in_app_or in Hin. rewrite (get_set_co _ _ _ _ _ Heqo).
+        destruct (Nat.eqb c' c) eqn:E.
+        -- apply Nat.eqb_eq in E. subst c'. exists x'. split; [reflexivity|]. destruct Hin as [Hin|[Hin|[]]].
+           ++ destruct (g_le s G c r Hin) as (z & Hz & Le). rewrite Heqo in Hz. inv_some Hz. exact Le.
+           ++ inv_some Hin. apply le_n.
+        -- apply Nat.eqb_neq in E. destruct Hin as [Hin|[Hin|[]]]; [apply (g_le s G c' r Hin)|].
+           inv_some Hin. congruence.
+      * intros c' y. fr. rewrite (get_set_co _ _ _ _ _ Heqo). destruct (Nat.eqb c' c) eqn:E.
+        -- intros Hy Py. inv_some Hy. discriminate.
+        -- intros Hy Py Hin. apply Nat.eqb_neq in E. apply in_app_or in Hin. destruct Hin as [Hin|[Hin|[]]].
+           ++ apply (g_fresh s G c' y Hy Py Hin).
+           ++ inv_some Hin. congruence.
+    + (* it had not *)
+      assert (G1 : InvG (set_co c x' s)) by (subst x'; glocal G Heqo).
+      constructor; simpl.
+      * apply (g_fifo _ G1).
+      * unfold entered_q. simpl. rewrite filter_app, map_app. simpl. rewrite app_nil_r. apply (g_handed _ G1).
+      * apply (g_inflight _ G1).
+      * apply NoDup_app_intro_one; [apply (g_nodup s G)|]. apply (g_fresh s G c c0 Heqo).
+        unfold pre_grant. rewrite Heqp. reflexivity.
+      * intros c' r Hin. fr. apply in_app_or in Hin. destruct Hin as [Hin|[Hin|[]]]; [apply (g_le _ G1 c' r Hin)|].
+        inv_some Hin. exists x'. split; [eapply get_set_co_same; eauto|apply le_n].
+      * intros c' y. fr. intros Hy Py Hin. apply in_app_or in Hin. destruct Hin as [Hin|[Hin|[]]].
+        -- apply (g_fresh _ G1 c' y Hy Py Hin).
+        -- inv_some Hin. rewrite (get_set_co_same _ _ _ _ Heqo) in Hy. inv_some Hy. discriminate.
+  - (* ELeave *) case_hyp H; inv_some H; glocal G Heqo.
+  - (* ERSelf *) case_hyp H; inv_some H. assert (P : pc c0 = PRel) by (eapply rel_pc; eauto). glocal G Heqo.
+  - (* ERAssert *) case_hyp H; inv_some H; glocal G Heqo.
+  - (* ERCheck *) case_hyp H; inv_some H; glocal G Heqo.
+  - (* ERLoad *) case_hyp H; inv_some H; glocal G Heqo.
+  - (* ERCas *) case_hyp H; inv_some H; [|glocal G Heqo].
+    apply invg_sender; [|same_waiters s].
+    pose proof (rel_isq s c c0 _ I Heqo Heqo0) as Q.
+    eapply invg_local; [exact G|exact Heqo| | |].
+    + rewrite Q. unfold isq in *. destruct r; cbn; auto.
+    + destruct r; reflexivity.
+    + unfold pre_grant. destruct r; cbn; auto; discriminate.
+  - (* ERXchg *) case_hyp H; inv_some H.
+    all: pose proof (proj2 (i_lc _ I _ _ Heqo)) as S; unfold stage_ok in S; rewrite Heqo0 in S;
+      apply andb_true_iff in S; destruct S as [S _]; apply negb_true_iff in S.
+    all: assert (Rv : receiver s = []) by (destruct (receiver s); [reflexivity|discriminate]).
+    all: match goal with |- InvG (set_receiver _ (set_sender _ (set_co _ ?v _))) => set (x' := v) end.
+    all: assert (G1 : InvG (set_co c x' s)) by (subst x'; glocal G Heqo).
+    all: apply invg_words; [exact G1|]; simpl; intros F; try congruence.
+    rewrite Rv, Heqw. simpl. rewrite app_nil_r. reflexivity.
+  - (* ERSubmitNext *) case_hyp H.
+    all: pose proof (rel_isq s c c0 _ I Heqo Heqo0) as Q.
+    all: refine (invg_hand s c c0 _ n _ _ s' _ I G Heqo Heqo0 _ _ _ H).
+    all: try (unfold isq in *; destruct r; cbn; auto; fail).
+    all: try (destruct r; reflexivity).
+    all: unfold pre_grant; destruct r; cbn; auto; discriminate.
+  - (* ERBatchSubmit *) case_hyp H. inv_some H.
+    assert (P : pc c0 = PRel) by (eapply rel_pc; eauto).
+    match goal with |- InvG (set_co _ (upd_exe _ _) (set_co c ?x1 s)) => set (x' := x1) in * end.
+    assert (G1 : InvG (set_co c x' s)) by (subst x'; glocal G Heqo).
+    eapply invg_local; [exact G1|exact Heqo2|reflexivity|reflexivity|auto].
+  - (* ERTransfer *) case_hyp H.
+    all: pose proof (rel_isq s c c0 _ I Heqo Heqo0) as Q.
+    all: refine (invg_hand s c c0 _ n _ _ s' _ I G Heqo Heqo0 _ _ _ H); auto.
+Qed.
+
+Theorem invg_run tr : forall s s', Inv s -> InvG s -> run s tr = Some s' -> InvG s'.
+Proof.
+  induction tr as [|e tr IH]; simpl; intros s s' I G H.
+  - inv_some H. exact G.
+  - destruct (step s e) as [s1|] eqn:E; [|discriminate].
+    eapply IH; [eapply inv_step; eauto|eapply invg_step; eauto|exact H].
+Qed.
+
+Theorem invg_reach f b ws hs tr s : run (init f b ws hs) tr = Some s -> InvG s.
+Proof. apply invg_run; [apply inv_init|apply invg_init]. Qed.
+
+(* ======== consequences, in the terms of the property ======================================================= *)
+
+(* ---- mutual exclusion ---- *)
+Lemma sumf_le {A} (f g : A -> nat) l : (forall a, f a <= g a) -> sumf f l <= sumf g l.
+Proof. intros H. induction l as [|a l IH]; [apply le_n|]. rewrite !sumf_cons. specialize (H a). lia. Qed.
+
+Lemma mutex s : Inv s ->
+  tokens s <= 1 /\ (tokens s = 0 <-> sender s = NotLocked) /\ sumf inside (cos s) <= 1 /\
+  (forall c c' x x', get s c = Some x -> get s c' = Some x' -> c <> c' -> tok x + tok x' <= 1).
+Proof.
+  intros I. pose proof (tokens_le1 s I) as T. split; [exact T|]. split; [|split].
+  - rewrite (i_tok s I). destruct (sender s); simpl; split; try reflexivity; try discriminate; lia.
+  - assert (sumf inside (cos s) <= tokens s); [|lia]. apply sumf_le. intros a. unfold inside, tok, holds.
+    destruct (pc a); lia.
+  - intros c c' x x' H H' N. pose proof (tok_le2 s c c' x x' H H' N). lia.
+Qed.
+
+(* ---- TryLock / the lock CASes succeed only when nobody holds the lock ---- *)
+Lemma acquire_only_free s e s' : Inv s -> step s e = Some s' ->
+  match e with ETCas _ true | ELCasN _ => True | _ => False end ->
+  sender s = NotLocked /\ tokens s = 0 /\ sumf inside (cos s) = 0 /\ tokens s' = 1.
+Proof.
+  intros I H E.
+  assert (F : is_free (sender s) = true).
+  { destruct e; try contradiction; [destruct ok; try contradiction|]; unfold step in H; case_hyp H;
+      try (apply eqb_true_l in Heqb; symmetry; exact Heqb); try assumption; reflexivity. }
+  pose proof (inv_step s e s' I H) as I'.
+  assert (S' : is_free (sender s') = false).
+  { destruct e; try contradiction; [destruct ok; try contradiction|]; unfold step in H; case_hyp H;
+      inv_some H; reflexivity. }
+  pose proof (i_tok s I) as T. rewrite F in T. pose proof (i_tok s' I') as T'. rewrite S' in T'.
+  split; [destruct (sender s); [reflexivity|discriminate]|]. split; [exact T|]. split; [|exact T'].
+  assert (sumf inside (cos s) <= tokens s); [|lia]. apply sumf_le. intros a. unfold inside, tok, holds.
+  destruct (pc a); lia.
+Qed.
+
+(* ---- no lost wake-up ---- *)
+(* every parked coroutine is in exactly one place of the two lists, and only parked coroutines are *)
+Lemma parked_exactly_once s : Inv s ->
+  NoDup (waiters (sender s) ++ receiver s) /\
+  forall c x, get s c = Some x -> (pc x = PParked <-> In c (waiters (sender s) ++ receiver s)).
+Proof.
+  intros I. split; [apply (i_pk2 s I)|]. intros c x H. split; [apply (i_pk3 s I c x H)|].
+  intros Hin. destruct (i_pk1 s I c Hin) as (y & Hy & Py). unfold lists in *. congruence.
+Qed.
+
+(* a parked coroutine is on no worker and in no executor queue *)
+Lemma parked_no_slot s c x : Inv s -> get s c = Some x -> pc x = PParked -> loc x = LNone.
+Proof.
+  intros I H P. pose proof (proj1 (i_lc _ I _ _ H)) as L. unfold lcb in L. rewrite P in L.
+  destruct (loc x); simpl in L; try discriminate. reflexivity.
+Qed.
+
+Lemma step_some_neq {A} (o : option A) v : o = Some v -> o <> None.
+Proof. congruence. Qed.
+
+Lemma get_set_co_len s c v x n y : get s c = Some x -> get s n = Some y -> exists y', get (set_co c v s) n = Some y'.
+Proof.
+  intros H Hn. rewrite (get_set_co _ _ _ _ _ H). destruct (Nat.eqb n c); eauto.
+Qed.
+
+(* the coroutine that runs on a worker never blocks: its next event is enabled *)
+Lemma co_never_blocks s c x e : Inv s -> get s c = Some x -> co_ev s c x = Some e -> step s e <> None.
+Proof.
+  intros I H E. unfold co_ev in E. destruct (loc x) eqn:L; try discriminate.
+  destruct (pc x) eqn:P; try discriminate.
+  - inv_some E. unfold step. rewrite H, P, L. discriminate.
+  - inv_some E. unfold step. rewrite H, P, ptr_eqb_refl. unfold try_failed. destruct (head (sender s)), k; discriminate.
+  - inv_some E. unfold step. rewrite H, P, eqb_reflx. unfold try_failed. destruct (is_free (sender s)), k; discriminate.
+  - inv_some E. unfold step. rewrite H, P, ptr_eqb_refl. discriminate.
+  - destruct e0.
+    + destruct (is_free (sender s)) eqn:F; inv_some E; unfold step; rewrite H, P.
+      * rewrite F. discriminate.
+      * rewrite ptr_eqb_refl. discriminate.
+    + destruct (ptr_eqb PL (head (sender s))) eqn:Q; inv_some E; unfold step; rewrite H, P.
+      * destruct (sender s) as [|[|? ?]]; simpl in *; try discriminate.
+      * rewrite ptr_eqb_refl. discriminate.
+    + destruct (ptr_eqb (PW c0) (head (sender s))) eqn:Q; inv_some E; unfold step; rewrite H, P.
+      * destruct (sender s) as [|[|? ?]]; simpl in *; try discriminate; rewrite Q; discriminate.
+      * rewrite ptr_eqb_refl. discriminate.
+  - inv_some E. unfold step. rewrite H, P, L. discriminate.
+  - inv_some E. unfold step. rewrite H, P, L.
+    assert (R : rel x = None).
+    { pose proof (tok_one s c x I H) as T. unfold tok, holds, releasing in T. rewrite P in T.
+      destruct (rel x); [lia|reflexivity]. }
+    rewrite R. discriminate.
+Qed.
+
+Lemma hand_enabled s c x xc n rest lc' e : Inv s -> get s c = Some x -> receiver s = n :: rest ->
+  (n = c -> pc xc = pc x) -> hand n lc' e (set_co c xc s) <> None.
+Proof.
+  intros I Hx Rv Pc. unfold hand. cbn [receiver set_co]. rewrite Rv, Nat.eqb_refl.
+  assert (Hin : In n (lists s)) by (unfold lists; rewrite Rv; apply in_or_app; right; left; reflexivity).
+  destruct (i_pk1 s I n Hin) as (y & Hy & Py). rewrite (get_set_co _ _ _ _ _ Hx).
+  destruct (Nat.eqb n c) eqn:E.
+  - apply Nat.eqb_eq in E. subst n. rewrite Hx in Hy. inv_some Hy. rewrite (Pc eq_refl), Py. discriminate.
+  - rewrite Hy, Py. discriminate.
+Qed.
+
+(* the release procedure never blocks and never dereferences null (M4): its next event is enabled *)
+Lemma rel_never_blocks s c x e : Inv s -> get s c = Some x -> rel_ev s c x = Some e -> step s e <> None.
+Proof.
+  intros I H E. unfold rel_ev in E. destruct (rel x) as [[[f stg] w]|] eqn:R; [|discriminate]. inv_some E.
+  pose proof (i_lc _ I _ _ H) as [L G]. unfold lcb in L. rewrite R in L. apply andb_true_iff in L. destruct L as [_ L].
+  unfold stage_ok in G. rewrite R in G.
+  assert (F : is_free (sender s) = false) by (eapply tok_locked; eauto; eapply rel_tok; eauto).
+  destruct stg.
+  - (* RSelf *) destruct f; try discriminate. unfold step. rewrite H, R, Nat.eqb_refl. discriminate.
+  - (* RAssert *) unfold step. rewrite H, R, ptr_eqb_refl. destruct (sender s) as [|[|? ?]]; simpl in *; discriminate.
+  - (* RCheck *) unfold step. rewrite H, R, eqb_reflx. discriminate.
+  - (* RLoad *) unfold step. rewrite H, R, ptr_eqb_refl. discriminate.
+  - (* RCas *) unfold step. rewrite H, R, eqb_reflx. destruct (is_locked_empty (sender s)); discriminate.
+  - (* RHead *) apply andb_true_iff in G. destruct G as [_ G]. unfold step. rewrite H, R, ptr_eqb_refl.
+    destruct (sender s) as [|[|? ?]]; try discriminate; destruct (fifo s); discriminate.
+  - (* RNext *) destruct (receiver s) as [|n rest] eqn:Rv; [discriminate|]. simpl hd.
+    assert (Hin : In n (lists s)) by (unfold lists; rewrite Rv; apply in_or_app; right; left; reflexivity).
+    destruct (i_pk1 s I n Hin) as (y & Hy & Py). unfold get in Hy. rewrite Hy.
+    assert (Sub : forall e', step s (ERSubmitNext c n (exe y)) = e' ->
+                  (match f with ROn _ => negb (batching s && had) | _ => true end) = true -> e' <> None).
+    { intros e' <- Sb. unfold step. rewrite H, R, Sb.
+      destruct (Nat.eq_dec n c) as [->|N].
+      - assert (y = x) by (unfold get in H; congruence). subst y.
+        assert (f_on : exists old, f = ROn old).
+        { destruct f; eauto; exfalso; unfold is_prel in L; rewrite Py in L; discriminate. }
+        destruct f_on as (old & ->). rewrite (get_set_co_same _ _ _ _ H). cbn. rewrite Nat.eqb_refl.
+        eapply hand_enabled; eauto.
+      - rewrite (get_set_co_other _ _ _ _ _ H N). unfold get at 1. rewrite Hy, Nat.eqb_refl.
+        eapply hand_enabled; eauto. intros; contradiction. }
+    destruct f.
+    + eapply Sub; reflexivity.
+    + eapply Sub; reflexivity.
+    + destruct (batching s && had) eqn:B.
+      * unfold step. rewrite H, R, B. eapply hand_enabled; eauto.
+      * eapply Sub; reflexivity.
+  - (* RBatch *) destruct f; try discriminate. destruct (receiver s) as [|n rest] eqn:Rv; [discriminate|]. simpl hd.
+    assert (Hin : In n (lists s)) by (unfold lists; rewrite Rv; apply in_or_app; right; left; reflexivity).
+    destruct (i_pk1 s I n Hin) as (y & Hy & Py). unfold get in Hy. rewrite Hy.
+    unfold step. rewrite H, R, Rv. unfold get at 1. rewrite Hy, Nat.eqb_refl.
+    match goal with |- context [get (set_co c ?v s) n] => destruct (get_set_co_len s c v x n y H Hy) as (y' & ->) end.
+    discriminate.
+  - (* RXfer *) destruct f; try discriminate. destruct (receiver s) as [|n' rest] eqn:Rv; [discriminate|].
+    apply Nat.eqb_eq in G. subst n'. unfold step. rewrite H, R, Nat.eqb_refl. eapply hand_enabled; eauto.
+Qed.
+
+(* whoever holds the token runs, is runnable, or is a release procedure on a worker *)
+Lemma holder_is_active s c x : Inv s -> get s c = Some x -> tok x > 0 -> passive x = false.
+Proof.
+  intros I H T. pose proof (proj1 (i_lc _ I _ _ H)) as L. unfold lcb in L. apply andb_true_iff in L.
+  destruct L as [L _]. unfold passive, tok, holds, releasing in *.
+  destruct (rel x); [destruct (loc x); reflexivity|]. destruct (pc x), (loc x); simpl in *; try discriminate; try lia; reflexivity.
+Qed.
+
+(* quiescent (every worker idle, every executor queue empty) => the mutex is free, nobody is parked, every coroutine
+   has finished: no request is left ungranted *)
+Lemma quiescent_all_granted s : Inv s -> quiescent s = true ->
+  sender s = NotLocked /\ receiver s = [] /\ tokens s = 0 /\
+  forall c x, get s c = Some x -> pc x = PDone.
+Proof.
+  intros I Q. unfold quiescent in Q.
+  assert (T : tokens s = 0).
+  { destruct (Nat.eq_dec (tokens s) 0) as [|N]; [assumption|exfalso].
+    destruct (sumf_pos_ex tok (cos s)) as (c & x & Hx & Tx); [unfold tokens in N; lia|].
+    pose proof (holder_is_active s c x I Hx Tx) as P. rewrite (forallb_nth _ _ _ _ Q Hx) in P. discriminate. }
+  assert (F : sender s = NotLocked).
+  { pose proof (i_tok s I) as E. rewrite T in E. destruct (sender s); [reflexivity|discriminate]. }
+  assert (R : receiver s = []) by (apply (i_recv s I); rewrite F; reflexivity).
+  split; [exact F|]. split; [exact R|]. split; [exact T|].
+  intros c x Hx. pose proof (forallb_nth _ _ _ _ Q Hx) as P. unfold passive in P.
+  pose proof (proj1 (i_lc _ I _ _ Hx)) as L. unfold lcb in L. apply andb_true_iff in L. destruct L as [L _].
+  destruct (loc x); try discriminate. destruct (pc x) eqn:Px; simpl in L; try discriminate; [|reflexivity].
+  pose proof (i_pk3 s I c x Hx Px) as Hin. unfold lists in Hin. rewrite F, R in Hin. destruct Hin.
+Qed.
+
+Lemma forallb_false_ex {A} (f : A -> bool) l : forallb f l = false -> exists n x, nth_error l n = Some x /\ f x = false.
+Proof.
+  induction l as [|a l IH]; simpl; [discriminate|]. destruct (f a) eqn:E; simpl.
+  - intros H. destruct (IH H) as (n & x & Hn & Hx). exists (S n), x. split; assumption.
+  - intros _. exists 0, a. split; [reflexivity|assumption].
+Qed.
+
+Lemma existsb_nth {A} (f : A -> bool) l : existsb f l = true -> exists n x, nth_error l n = Some x /\ f x = true.
+Proof.
+  induction l as [|a l IH]; simpl; [discriminate|]. destruct (f a) eqn:E; simpl.
+  - intros _. exists 0, a. split; [reflexivity|assumption].
+  - intros H. destruct (IH H) as (n & x & Hn & Hx). exists (S n), x. split; assumption.
+Qed.
+
+(* something that is on a worker has an enabled step *)
+Lemma active_can_step s c x : Inv s -> get s c = Some x -> (running x = true \/ rel x <> None) ->
+  exists e s', step s e = Some s'.
+Proof.
+  intros I H [Rn|Rl].
+  - destruct (rel x) as [r|] eqn:R.
+    + destruct (rel_ev s c x) as [e|] eqn:E; [|unfold rel_ev in E; rewrite R in E; destruct r as [[? ?] ?]; discriminate].
+      pose proof (rel_never_blocks s c x e I H E). destruct (step s e) as [s'|] eqn:St; [eauto|congruence].
+    + destruct (co_ev s c x) as [e|] eqn:E.
+      * pose proof (co_never_blocks s c x e I H E). destruct (step s e) as [s'|] eqn:St; [eauto|congruence].
+      * exfalso. pose proof (proj1 (i_lc _ I _ _ H)) as L. unfold lcb, is_prel in L. rewrite R in L.
+        unfold co_ev, running in *. destruct (loc x); try discriminate.
+        destruct (pc x) as [| | | |? []| | | | |]; simpl in *; try discriminate.
+  - destruct (rel x) as [r|] eqn:R; [|contradiction].
+    destruct (rel_ev s c x) as [e|] eqn:E; [|unfold rel_ev in E; rewrite R in E; destruct r as [[? ?] ?]; discriminate].
+    pose proof (rel_never_blocks s c x e I H E). destruct (step s e) as [s'|] eqn:St; [eauto|congruence].
+Qed.
+
+(* progress: unless everything is finished some step is enabled, provided every executor that has a coroutine in its
+   queue has a worker ("the executors keep accepting work"); in particular with ONE worker *)
+Lemma progress s : Inv s -> quiescent s = false ->
+  (forall c x, get s c = Some x -> loc x = LQueued -> exists w, nth_error (wexe s) w = Some (exe x)) ->
+  exists e s', step s e = Some s'.
+Proof.
+  intros I Q W. unfold quiescent in Q. destruct (forallb_false_ex _ _ Q) as (c & x & Hx & P).
+  unfold passive in P. destruct (loc x) eqn:L.
+  - (* queued: its worker is idle, or busy with something that can step *)
+    destruct (W c x Hx L) as (w & Hw). destruct (idle s w) eqn:Id.
+    + exists (EStart w c). unfold step. change (nth_error (cos s) c) with (get s c) in Hx. rewrite Hx, Hw, L, Nat.eqb_refl, Id.
+      simpl. eauto.
+    + unfold idle in Id. apply negb_false_iff in Id. destruct (existsb_nth _ _ Id) as (c' & x' & Hx' & On).
+      apply (active_can_step s c' x' I Hx'). unfold on_worker, running in *.
+      apply orb_true_iff in On. destruct On as [On|On].
+      * left. destruct (loc x'); try discriminate. reflexivity.
+      * right. destruct (rel x'); [discriminate|discriminate].
+  - apply (active_can_step s c x I Hx). left. unfold running. rewrite L. reflexivity.
+  - destruct (rel x) eqn:R; [|discriminate]. apply (active_can_step s c x I Hx). right. congruence.
+Qed.
+
+(* the workers are never changed *)
+Lemma wexe_step s e s' : step s e = Some s' -> wexe s' = wexe s.
+Proof.
+  intros H. destruct e; unfold step, try_failed, hand in H; case_hyp H; inv_some H; reflexivity.
+Qed.
+Lemma wexe_run tr : forall s s', run s tr = Some s' -> wexe s' = wexe s.
+Proof.
+  induction tr as [|e tr IH]; simpl; intros s s' H; [inv_some H; reflexivity|].
+  destruct (step s e) as [s1|] eqn:E; [|discriminate]. rewrite (IH _ _ H). eapply wexe_step; eauto.
+Qed.
+
+(* ---- FIFO: critical sections of coroutines that queued are entered in arrival order (M5) ---- *)
+Lemma fifo_order s : InvG s -> fifo s = true ->
+  pushed s = entered_q s ++ inflight s ++ receiver s ++ rev (waiters (sender s)).
+Proof. intros G F. rewrite (g_fifo s G F), (g_handed s G), <- app_assoc. reflexivity. Qed.
+
+(* ---- granted once ---- *)
+Lemma granted_once s : Inv s -> InvG s ->
+  NoDup (grants s) /\
+  (forall c r, In (c, r) (grants s) -> exists x, get s c = Some x /\ r <= nreq x) /\
+  length (inflight s) <= 1 /\
+  NoDup (waiters (sender s) ++ receiver s).
+Proof.
+  intros I G. split; [apply (g_nodup s G)|]. split; [apply (g_le s G)|]. split; [|apply (i_pk2 s I)].
+  pose proof (g_inflight s G) as J. destruct (inflight s) as [|? [|? ?]]; simpl; try lia; destruct J.
+Qed.
+
+Lemma receiver_needs_token s : Inv s -> receiver s <> [] -> tokens s = 1.
+Proof.
+  intros I R. rewrite (i_tok s I). destruct (is_free (sender s)) eqn:F; [|reflexivity].
+  exfalso. apply R. apply (i_recv s I F).
+Qed.
+
+Lemma parked_off_worker s c x : Inv s -> get s c = Some x -> pc x = PParked ->
+  loc x = LNone /\ forall w, on_worker w x = true -> rel x <> None.
+Proof.
+  intros I H P. pose proof (parked_no_slot s c x I H P) as L. split; [exact L|].
+  intros w On. unfold on_worker in On. rewrite L in On. simpl in On. destruct (rel x); [discriminate|discriminate].
+Qed.
+
+(* the options are never changed *)
+Lemma opts_step s e s' : step s e = Some s' -> fifo s' = fifo s /\ batching s' = batching s.
+Proof.
+  intros H. destruct e; unfold step, try_failed, hand in H; case_hyp H; inv_some H; split; simpl;
+    try reflexivity; congruence.
+Qed.
+Lemma fifo_run tr : forall s s', run s tr = Some s' -> fifo s' = fifo s.
+Proof.
+  induction tr as [|e tr IH]; simpl; intros s s' H; [inv_some H; reflexivity|].
+  destruct (step s e) as [s1|] eqn:E; [|discriminate]. rewrite (IH _ _ H). apply (opts_step _ _ _ E).
+Qed.
+
+(* ---- the theorems of props/Properties_C14.v, packaged --------------------------------------------------------- *)
+Lemma thm_mutex f b ws hs tr s : run (init f b ws hs) tr = Some s ->
+  tokens s <= 1 /\ (tokens s = 0 <-> sender s = NotLocked) /\ sumf inside (cos s) <= 1 /\
+  (receiver s <> [] -> tokens s = 1) /\
+  (forall c c' x x', get s c = Some x -> get s c' = Some x' -> c <> c' -> tok x + tok x' <= 1).
+Proof.
+  intros H. pose proof (inv_reach f b ws hs tr s H) as I. destruct (mutex s I) as (A & B & C & D).
+  split; [exact A|]. split; [exact B|]. split; [exact C|]. split; [exact (receiver_needs_token s I)|exact D].
+Qed.
+
+Lemma thm_no_lost_wakeup f b ws hs tr s : run (init f b ws hs) tr = Some s ->
+  (NoDup (waiters (sender s) ++ receiver s) /\
+   forall c x, get s c = Some x -> (pc x = PParked <-> In c (waiters (sender s) ++ receiver s))) /\
+  (forall c x, get s c = Some x -> pc x = PParked -> loc x = LNone) /\
+  (forall c x e, get s c = Some x -> co_ev s c x = Some e -> step s e <> None) /\
+  (forall c x e, get s c = Some x -> rel_ev s c x = Some e -> step s e <> None) /\
+  (quiescent s = true ->
+   sender s = NotLocked /\ receiver s = [] /\ tokens s = 0 /\ forall c x, get s c = Some x -> pc x = PDone).
+Proof.
+  intros H. pose proof (inv_reach f b ws hs tr s H) as I. split; [|split; [|split; [|split]]].
+  - exact (parked_exactly_once s I).
+  - intros c x. exact (parked_no_slot s c x I).
+  - intros c x e. exact (co_never_blocks s c x e I).
+  - intros c x e. exact (rel_never_blocks s c x e I).
+  - exact (quiescent_all_granted s I).
+Qed.
+
+Lemma thm_fifo b ws hs tr s : run (init true b ws hs) tr = Some s ->
+  pushed s = entered_q s ++ inflight s ++ receiver s ++ rev (waiters (sender s)).
+Proof.
+  intros H. apply (fifo_order s (invg_reach true b ws hs tr s H)). exact (fifo_run _ _ _ H).
+Qed.
+
+Lemma thm_single_worker f b e hs tr s : run (init f b [e] hs) tr = Some s ->
+  wexe s = [e] /\
+  (forall c x, get s c = Some x -> pc x = PParked -> loc x = LNone /\ forall w, on_worker w x = true -> rel x <> None) /\
+  (quiescent s = false -> (forall c x, get s c = Some x -> loc x = LQueued -> exe x = e) ->
+   exists ev s', step s ev = Some s') /\
+  (quiescent s = true -> forall c x, get s c = Some x -> pc x = PDone).
+Proof.
+  intros H. pose proof (inv_reach f b [e] hs tr s H) as I.
+  assert (W : wexe s = [e]) by (rewrite (wexe_run _ _ _ H); reflexivity).
+  split; [exact W|]. split; [|split].
+  - intros c x Hx P. exact (parked_off_worker s c x I Hx P).
+  - intros Q E. apply (progress s I Q). intros c x Hx L. exists 0. rewrite W, (E c x Hx L). reflexivity.
+  - intros Q. apply (quiescent_all_granted s I Q).
 Qed.
